@@ -101,13 +101,42 @@ def check(idx: Index, rep: Report, tier: str) -> str:
         memo[f.fq] = res
         return res
 
+    mut_memo: dict[str, bool] = {}
+
+    def mutates(f: FuncInfo, depth: int = 0) -> bool:
+        """Does f reach an IR-mutating primitive, directly or through super() / self calls?"""
+        if f.fq in mut_memo:
+            return mut_memo[f.fq]
+        mut_memo[f.fq] = False
+        res = bool(direct_mutations(f))
+        if not res and depth < 4:
+            for c in calls_in(f.node):
+                tag = _self_call(c)
+                if tag and tag.startswith("super:"):
+                    g = resolve_self_call(f, tag)
+                    if g is not None and g.fq != f.fq and mutates(g, depth + 1):
+                        res = True
+        mut_memo[f.fq] = res
+        return res
+
+    def super_mutations(f: FuncInfo) -> list[ast.Call]:
+        """`super().m(...)` calls whose target (the shadowed definition, not otherwise visited) mutates the IR."""
+        out = []
+        for c in calls_in(f.node):
+            tag = _self_call(c)
+            if tag and tag.startswith("super:"):
+                g = resolve_self_call(f, tag)
+                if g is not None and g.fq != f.fq and mutates(g):
+                    out.append(c)
+        return out
+
     n_mut = 0
     for nm, f in sorted(visible.items()):
         if nm.startswith("__") or nm.startswith("handle_") or nm == "extend_from_listener":
             continue
         if f.module.relpath not in (PR, BUILDER):
             continue
-        muts = direct_mutations(f)
+        muts = direct_mutations(f) + super_mutations(f)
         if not muts:
             # pure delegation is fine if callee is verified separately (every visible method is visited)
             continue
